@@ -3,7 +3,8 @@
 From Coq Require Import String.
 From Coq Require Import List Ascii ZArith Bool Lia.
 From CGV Require Import Base.PyBase Base.PyVal Base.NxGraph Resolve.Bonding Resolve.GraphOps Resolve.Pipeline
-     Resolve.MapDefs Resolve.Witness Resolve.MapProofs Resolve.CopyProofs Resolve.PipelineFull Resolve.FragidProofs Resolve.EdgeCopy Resolve.EdgeCopyGen Resolve.BondedCopy Resolve.BondingDefs Resolve.WfMerged Resolve.CoarseCopy Resolve.AllAtomCopy.
+     Resolve.MapDefs Resolve.Witness Resolve.MapProofs Resolve.CopyProofs Resolve.PipelineFull Resolve.FragidProofs Resolve.EdgeCopy Resolve.EdgeCopyGen Resolve.BondedCopy Resolve.BondingDefs Resolve.WfMerged Resolve.CoarseCopy Resolve.AllAtomCopy Resolve.SquashedCopy.
+From CGV Require Hydro.QuotientDefs.
 From CGV Require Compose.RebuildWf Hydro.Hydrogens.
 From CGV Require Hydro.Squash Gen.HydroGen.
 From CGV Require Hydro.SquashDefs Hydro.SquashProofs Compose.GraphAdj Compose.GraphFacts.
@@ -236,6 +237,28 @@ Proof. exact step_coarse_copy. Qed.
 Example C02_step_coarse_copy_nonvacuous :
   match resolve_step_full true false fd_AB base_VAB None with Ok fo => graph_eqb (fo_m3 fo) (fo_m2 fo) | Err _ => false end = true.
 Proof. vm_compute. reflexivity. Qed.
+(** ---- steps that DO squash atoms (Resolve/SquashedCopy.v).  The graph handed to squash_atoms is well formed (above), so hydro's
+    quotient theorem applies to EVERY step without a hypothesis on intermediate graphs: the squashed graph fo_m3 is the quotient of
+    the bonded graph fo_m2 by the `!` classes ([rho] = class representative, [qedge] = adjacency of the quotient) *)
+Theorem C02_step_squash_quotient : forall legacy aa fd prev car fo, tmpl_dict fd -> resolve_step_full legacy aa fd prev car = Ok fo ->
+  (forall es, base_edges (fo_meta fo) = Ok es -> wf_edges es) ->
+  SquashDefs.wf_graph (fo_m2 fo) /\ SquashDefs.wf_graph (fo_m3 fo) /\
+  node_keys (fo_m3 fo) = filter (fun k => Z.eqb (QuotientDefs.rho (fo_m2 fo) k) k) (node_keys (fo_m2 fo)) /\
+  (forall y x, has_edge (fo_m3 fo) y x = QuotientDefs.qedge (QuotientDefs.rho (fo_m2 fo)) (QuotientDefs.dir_edges (fo_m2 fo)) y x) /\
+  (forall k, In k (node_keys (fo_m2 fo)) -> In (QuotientDefs.rho (fo_m2 fo) k) (node_keys (fo_m3 fo))).
+Proof. exact step_squash_quotient. Qed.
+(** hence the two atoms of a template bond are, after squashing, merged into one atom or adjacent *)
+Theorem C02_step_squashed_bonds : forall legacy aa fd prev car fo, tmpl_dict fd -> resolve_step_full legacy aa fd prev car = Ok fo ->
+  (forall es, base_edges (fo_meta fo) = Ok es -> wf_edges es) ->
+  forall pre mn post fv name frag, fo_meta fo = (pre ++ mn :: post)%list ->
+  aget (S "fragname") (na mn) = Some fv -> lookup_fragment fd fv = Some (name, frag) ->
+  exists cf : Z -> Z,
+    (forall n, In n frag -> node_get (fo_m2 fo) (cf (nk n)) (S "fragid") = Some (VList [VInt (nk mn)])) /\
+    (forall a, In a (node_keys frag) -> In (QuotientDefs.rho (fo_m2 fo) (cf a)) (node_keys (fo_m3 fo))) /\
+    (forall a b, In a (node_keys frag) -> In b (node_keys frag) -> has_edge frag a b = true ->
+       QuotientDefs.rho (fo_m2 fo) (cf a) = QuotientDefs.rho (fo_m2 fo) (cf b) \/
+       has_edge (fo_m3 fo) (QuotientDefs.rho (fo_m2 fo) (cf a)) (QuotientDefs.rho (fo_m2 fo) (cf b)) = true).
+Proof. exact step_squashed_bonds. Qed.
 (** ---- the RETURNED graph of an ALL-ATOM step (Resolve/AllAtomCopy.v): arbitrary dictionary of well-formed templates with dict-like
     attribute lists (wf_attrs), arbitrary coarse graph whose base edges join different coarse nodes, ANY aromaticity transcript g1
     that Hydro's contract accepts and that carries no 'rs_isomer' attribute, no atoms squashed: every coarse node with a fragment
@@ -327,6 +350,8 @@ Print Assumptions C02_bonded_graph_wf.
 Print Assumptions C02_squash_identity.
 Print Assumptions C02_step_coarse_copy.
 Print Assumptions C02_step_allatom_copy.
+Print Assumptions C02_step_squash_quotient.
+Print Assumptions C02_step_squashed_bonds.
 Print Assumptions C02_frag_exact.
 Print Assumptions C02_frag_cover.
 Print Assumptions C02_fragid_singleton.
